@@ -908,6 +908,9 @@ fn enumerate_schemas_base(thorough: bool) -> Vec<Schema> {
         b.push("G-enum", false, Kind::Enum(EnumS { enc: eenc, tag: None, index_only: false, variants }));
         let one = vec![VariantS { idx: 256, shape: Shape::Named, enc: None, tag: None, fields: vec![fld(1, FTy::U8)] }];
         b.push("G-enum", false, Kind::Enum(EnumS { enc: eenc, tag: None, index_only: false, variants: one }));
+        // index_only enum whose variants carry tags: accepted by the macros, the bare index is written (the tag has nothing to annotate)
+        let tagged_io: Vec<VariantS> = [(0u32, Some(5u64)), (1, None), (24, Some(256))].iter().map(|(i, t)| VariantS { idx: *i, shape: Shape::Unit, enc: None, tag: *t, fields: vec![] }).collect();
+        b.push("G-enum", false, Kind::Enum(EnumS { enc: eenc, tag: None, index_only: true, variants: tagged_io }));
         // variants declared in non-ascending index order (the index belongs to the variant, not to its position)
         let shuffled = vec![
             VariantS { idx: 5, shape: Shape::Tuple, enc: None, tag: None, fields: vec![fld(0, FTy::U8)] },
